@@ -49,10 +49,13 @@ func keysOf(m map[string]bool) string {
 // readerSizePrefix extracts the literal prefix parseBody requires on the size line.
 func readerSizePrefix(sums []Summary) (string, bool) {
 	for _, s := range sums {
-		for _, c := range calls(s, "strings.CutPrefix", "strings.HasPrefix", "strings.TrimPrefix") {
+		for _, c := range calls(s, "strings.CutPrefix", "strings.HasPrefix", "strings.TrimPrefix", "bytes.CutPrefix", "bytes.HasPrefix", "bytes.TrimPrefix") {
 			if len(c.Args) == 2 {
 				if p, ok := constInt(c.Args[1]); ok && strings.HasPrefix(p, "\"") {
 					return unquote(p), true
+				}
+				if p, ok := constStr(c.Args[1]); ok && p != "" { // []byte("old ")
+					return p, true
 				}
 			}
 		}
